@@ -188,6 +188,11 @@ Proof.
     rewrite Hc, Hg. reflexivity.
 Qed.
 
+Lemma create_store_iff g cl :
+  authorize_create_store g cl = Allow <->
+  exists c, cl = Claims c /\ c <> [] /\ g c R_CanCallCreateStore OSystem = Some true.
+Proof. exact (authorize_system_iff g cl M_CreateStore). Qed.
+
 Lemma spec_system_allowed_is_authorize_system g cl m :
   spec_system_allowed g cl m = is_allow (authorize_system g cl m).
 Proof.
@@ -332,7 +337,7 @@ Proof.
   assert (K : In st (flat_map (fun id => filter (fun st0 => beqb (fst st0) id) all) (i :: rest)) ->
               In (fst st) (i :: rest) /\ In st all).
   { intro H. apply in_flat_map in H. destruct H as [id [Hid Hf]].
-    apply filter_In in Hf. destruct Hf as [Ha Hb]. apply beqb_eq in Hb. simpl in Hb. split; [idtac "DBG"; match goal with |- ?G => idtac G end; match type of Hb with ?T => idtac T end; rewrite Hb; exact Hid | exact Ha]. }
+    apply filter_In in Hf. destruct Hf as [Ha Hb]. apply beqb_eq in Hb. simpl in Hb. subst id. split; [exact Hid | exact Ha]. }
   destruct name as [|n0 nr]; [exact K|].
   intro H. apply filter_In in H. destruct H as [H _]. apply K. exact H.
 Qed.
@@ -356,7 +361,7 @@ Proof.
   assert (Hc : check_claims (Claims c) = Some c) by (apply check_claims_some; auto).
   rewrite Hc. destruct (la c) as [acc|] eqn:L; [|discriminate].
   intros _. exists c. split; [reflexivity|]. split; [exact Hne|]. split; [exact Hg|].
-  exists acc. reflexivity.
+  exists acc. exact L.
 Qed.
 
 (* returned ⊆ accessible, provided the authorizer found at least one accessible store.
@@ -567,4 +572,7 @@ Proof. vm_compute. reflexivity. Qed.
 
 Lemma unscoped_handlers_reviewed :
   map h_name (filter (fun h => negb (h_store_scoped h)) c26_handlers) = ["CreateStore"; "ListStores"]%string.
+Proof. vm_compute. reflexivity. Qed.
+
+Lemma handler_flags_computed : handler_flags = handler_flags_def.
 Proof. vm_compute. reflexivity. Qed.
